@@ -793,6 +793,9 @@ KILLS = [
     "userfunctions.py arguments bound without conversion -> caller-var.changed-after-error, result.value",
     "userfunctions.py result not converted to the function type -> call.error-missing, result.value",
     "userfunctions.py last saved variable not restored -> caller-var.changed, caller-var.changed-after-error",
+    "userfunctions.py define(): parameter names completed with their sigil at DEF FN time (seeded "
+    "change; needs an unsigiled parameter and a DEFtype between DEF FN and call) -> result.value, "
+    "call.error-missing, call.unexpected-error (regressions FNA(7)/FNF(10) and random unit)",
     "fix bdb77144 reverted (userfunctions.py as in the snapshot) -> result.parameter-read-after-"
     "rebinding, caller-var.string-parameter-lost-in-gc, gc-after-failed-call.leaked-string-argument, "
     "caller-var.unreadable.KeyError (regressions and random unit)",
